@@ -317,6 +317,8 @@ func getDefaultAccess(cat types.TopicCat, authUser, isChan bool) types.AccessMod
 		return types.ModeCPublic
 	case types.TopicCatMe:
 		return types.ModeCSelf
+	case types.TopicCatSys:
+		return types.ModeCSys
 	default:
 		panic("Unknown topic category")
 	}
